@@ -179,6 +179,9 @@ fn write_cases(tier: Tier) -> Vec<WriteCase> {
             seqs.push(vec![(a, ka)]);
         }
     }
+    seqs.push(vec![(256, 3)]);
+    seqs.push(vec![(256, 3), (8192, 1)]);
+    seqs.push(vec![(8191, 0), (256, 3)]);
     for a in sizes {
         for b in sizes {
             seqs.push(vec![(a, 0), (b, 1)]);
@@ -471,7 +474,24 @@ impl Property for P21 {
                     }
                     let mut expect: Vec<u8> = if c.mode == "a" && c.existing { old.clone() } else { vec![] };
                     for (k, (n, kind)) in c.writes.iter().enumerate() {
-                        let data = payload(*n, k);
+                        let mut data = payload(*n, k);
+                        if *kind != 0 {
+                            // byte forms carry binary data: every byte value occurs, not only the ASCII of the text payload
+                            for (i, b) in data.iter_mut().enumerate() {
+                                *b = b.wrapping_add((i * 131 + 128) as u8);
+                            }
+                        }
+                        if *kind == 3 {
+                            // every byte value 0..=255, one write(f, byte) call each
+                            for b in 0..=255u8 {
+                                let r = (builtin("write"))(vec![f.clone(), Rc::new(Object::Byte(b))])?;
+                                if canon(&r) != "i1" {
+                                    return Err(format!("write(f, byte({})) returned {}", b, canon(&r)));
+                                }
+                                expect.push(b);
+                            }
+                            continue;
+                        }
                         let arg: Rc<Object> = match kind {
                             0 => Rc::new(Object::Str(String::from_utf8(data.clone()).unwrap())),
                             1 => Rc::new(Object::Arr(Rc::new(crate::object::array::Array::new(data.iter().map(|b| Rc::new(Object::Byte(*b))).collect())))),
@@ -526,7 +546,7 @@ impl Property for P21 {
         }
     }
     fn rule(&self) -> String {
-        format!("files: sizes {:?} x (binary counter pattern with newlines at 0/4095/4096/8191/8192, UTF-8 text with 2-, 3- and 4-byte characters straddling the buffer boundaries); per file a breadth-first search over call sequences of depth <= 3 (thorough: every sequence of depth <= 4, states not merged) from {:?} (string-returning calls only where the data is valid UTF-8), model = content + cursor, canonical state = cursor (merged states cross-checked), every transition on a freshly opened handle and followed by a final read(f) that must return exactly the rest; pipes: 8 call sequences x every composition of the content into <= 3 chunks with sizes from {{1, 100, 4096, 4097, 8192, rest}} on a FIFO opened with the real open (in-process) and on stdin of the binary; the feeder writes chunk j+1 only when the pipe is empty (FIONREAD == 0), every schedule is run twice and must give identical observations, a reader still waiting after the writer closed is a hang; writes: mode (w, a, x, r, none) x target (missing, existing) x sequences of <= 2 (thorough 3) writes of sizes 0/1/8191/8192/8193 as string / byte array / single byte x ending (handle closed; flush(f) with the handle still open): file content = old-content rule of the mode + the bytes written, and open must succeed or fail as documented", SIZES, OPS)
+        format!("files: sizes {:?} x (binary counter pattern with newlines at 0/4095/4096/8191/8192, UTF-8 text with 2-, 3- and 4-byte characters straddling the buffer boundaries); per file a breadth-first search over call sequences of depth <= 3 (thorough: every sequence of depth <= 4, states not merged) from {:?} (string-returning calls only where the data is valid UTF-8), model = content + cursor, canonical state = cursor (merged states cross-checked), every transition on a freshly opened handle and followed by a final read(f) that must return exactly the rest; pipes: 8 call sequences x every composition of the content into <= 3 chunks with sizes from {{1, 100, 4096, 4097, 8192, rest}} on a FIFO opened with the real open (in-process) and on stdin of the binary; the feeder writes chunk j+1 only when the pipe is empty (FIONREAD == 0), every schedule is run twice and must give identical observations, a reader still waiting after the writer closed is a hang; writes: mode (w, a, x, r, none) x target (missing, existing) x sequences of <= 2 (thorough 3) writes of sizes 0/1/8191/8192/8193 as string / byte array / single byte (byte forms carry every byte value; one sequence writes all 256 values one call each) x ending (handle closed; flush(f) with the handle still open): file content = old-content rule of the mode + the bytes written, and open must succeed or fail as documented", SIZES, OPS)
     }
     fn bounds(&self) -> Value {
         json!({"cases": self.cases.len(), "write_cases": self.wcases.len(), "binary_runs": self.e2e})
